@@ -1,4 +1,4 @@
-"""Registry fragment: 'finding' harnesses (expected to FAIL) that witness `known:` entries of known_findings.txt which
+"""Registry fragment of the coordinator: complete Kani harnesses for the inline shift arms, and 'finding' harnesses (expected to FAIL) that witness `known:` entries of known_findings.txt which
 have no harness in another group."""
 VERUS = {}
 KANI = {
@@ -13,6 +13,15 @@ KANI = {
         },
     },
 }
+KANI['int_shift_small'] = {
+    'package': 'dashu-int', 'target': 'integer/src/shift_ops.rs', 'file': 'int_shift_small.rs',
+    'harnesses': {
+        'vk_shift_small_shr_owned': {'kind': 'complete', 'domain': 'every DoubleWord x every usize shift count (TypedRepr::Small >> n)'},
+        'vk_shift_small_shr_ref': {'kind': 'complete', 'domain': 'every DoubleWord x every usize shift count (TypedReprRef::RefSmall >> n)'},
+    },
+}
 PROP_UNITS = {
     'C18': {'kani': ['float_findings']},
+    'C09': {'kani': ['int_shift_small']},
+    'C15': {'kani': ['int_shift_small']},
 }
